@@ -60,7 +60,7 @@ class Script:
                 s.specdel.setdefault(le, []).append(h["t"])
             elif a == "T_LoopEnd":
                 le += 1
-            if a in ("W_Emit", "W_Exit", "W_Fail", "W_ExtStop"):
+            if a in ("W_Emit", "W_Exit", "W_Fail", "W_ExtStop", "W_Gone"):
                 s.wev.setdefault(obs, []).append((a, h["t"]))
             elif a in OBS_ACTIONS:
                 obs += 1
@@ -121,12 +121,18 @@ class ScriptedBackend(TrialBackend):
         self._stop_all_set = None
         self.ckpt: Dict[int, str] = {}
         self.log_vals = False
+        self.linger = False
 
     # ---- environment
     def _observe(self):
         """An observation point: let the scripted worker events of this slot happen first."""
         for (a, t) in self.script.wev.get(self.obs, []):
             w = self.workers.get(t)
+            if a == "W_Gone":
+                if w is not None and w.state == "stopping":
+                    w.state = "killed"
+                    self.log.append({"a": a, "t": t})
+                continue
             if w is None or w.state != "busy":
                 continue  # not enabled in the real run: skipped, and not logged
             if a == "W_Emit":
@@ -159,7 +165,7 @@ class ScriptedBackend(TrialBackend):
         if t in self.pause_flag:
             return Status.paused
         return {"busy": Status.in_progress, "ok": Status.completed, "fail": Status.failed,
-                "killed": Status.stopped}[self.workers[t].state]
+                "killed": Status.stopped, "stopping": Status.stopping}[self.workers[t].state]
 
     # ---- primitives of the abstract backend
     def _all_trial_results(self, trial_ids: List[int]) -> List[TrialResult]:
@@ -183,7 +189,8 @@ class ScriptedBackend(TrialBackend):
     def _kill(self, t):
         w = self.workers[t]
         if w.state == "busy":
-            w.state = "killed"
+            # linger: the job keeps its worker in state "stopping" until the environment lets it go (SageMaker-like)
+            w.state = "stopping" if (self.linger and not self._in_stop_all) else "killed"
 
     def _pause_trial(self, trial_id: int, result: Optional[dict]):
         self._kill(trial_id)
@@ -211,6 +218,7 @@ class ScriptedBackend(TrialBackend):
         # only called by the tuner with start_jobs_without_delay = False: an observation of the processes
         self._observe()
         r = [(t, Status.in_progress) for t, w in self.workers.items() if self._status(t) == Status.in_progress]
+        r += [(t, Status.stopping) for t, w in self.workers.items() if w.state == "stopping"]
         self.log.append({"a": "Busy", "S": [t for t, _ in r]})
         return r
 
@@ -447,6 +455,7 @@ def run_tuner(conf: dict, script: Script, scheduler=None, stop_criterion=None, v
         log = []
         backend = ScriptedBackend(script, log, values=values, delete_checkpoints=bool(conf.get("del", False)))
         backend.log_vals = conf.get("ckind") in ("minmetric", "maxmetric", "cost", "minmax")
+        backend.linger = bool(conf.get("linger", False))
     sched = scheduler if scheduler is not None else ScriptedScheduler(script, conf.get("kind", "stop"))
     instrument_scheduler(sched, log)
     crit = stop_criterion if stop_criterion is not None else ScriptedCriterion(script)
@@ -512,12 +521,12 @@ def trace_conf(conf: dict) -> dict:
          "wait": bool(conf.get("wait", False)), "del": bool(conf.get("del", False)), "failb": 99, "extb": 99,
          "ckind": conf.get("ckind", "script"), "k": conf.get("k", 0), "k2": conf.get("k2", 0), "emptyexit": True, "mayexhaust": True,
          "r3": False, "r13": False, "also": bool(conf.get("also", False)), "sim": bool(conf.get("sim", False)), "r8": False, "sjwd": bool(conf.get("sjwd", True)),
-         "spec": bool(conf.get("spec", False))}
+         "spec": bool(conf.get("spec", False)), "linger": bool(conf.get("linger", False))}
     return c
 
 
 TRACE_FIELDS = {
-    "W_Emit": ("t",), "W_Exit": ("t",), "W_Fail": ("t",), "W_ExtStop": ("t",),
+    "W_Emit": ("t",), "W_Exit": ("t",), "W_Fail": ("t",), "W_ExtStop": ("t",), "W_Gone": ("t",),
     "Fetch": ("n", "dead", "vals"), "Result": ("t", "r", "i", "d"), "StopTrial": ("t",), "PauseTrial": ("t",),
     "Remove": ("t",), "Complete": ("t",), "Error": ("t",), "CbComplete": ("t",), "Start": ("t", "from"),
     "Add": ("t",), "Resume": ("t",), "Delete": ("t",), "Exhausted": (), "StopCrit": ("b",), "Iter": (),
